@@ -838,7 +838,49 @@ def pruneset(ctx):
     ctx.floor("PRUNESET", "used-feature sets in create_raw_connector", nsets, 2)
 
 
+def saturate(ctx):
+    """SATURATE (C07, C16): the matrix part of the dual connector stores pre-summed costs in 16
+    bits. The narrowing must not change any sum that fits: the value cast to i16 is clamped to
+    exactly [i16::MIN, i16::MAX] (a narrower clamp alters representable sums, a missing one
+    wraps)."""
+    from r_panic import const_eval, root_of
+    crate = ctx.facts("A").lib
+    E = Effects(crate)
+    p = "vibrato::dictionary::connector::dual_connector::DualConnector::create_matrix_connector"
+    region = [p] + sorted(q for q in crate.fns if q.startswith(p + "::{closure") and crate.fns[q].body)
+    n = 0
+    for q in region:
+        fa = E.fa(q)
+        for b, i, s0 in fa.stmts():
+            rv = s0.get("rv")
+            if not rv or rv["k"] != "cast" or rv.get("ck") != "IntToInt" or rv.get("ty") != "i16" or \
+                    rv.get("from_ty") not in ("i32", "i64", "isize"):
+                continue
+            n += 1
+            r = root_of(fa, rv["op"])
+            ok, why = False, "the sum is cast to i16 without a clamp: sums outside 16 bits wrap"
+            if r[0] == "call":
+                cc = callee_of(r[2])
+                nm = short(strip_generics((cc.get("resolved") or cc)["path"])) if cc else "?"
+                if nm == "clamp" and len(r[2]["args"]) == 3:
+                    mn, mx = const_eval(fa, r[2]["args"][1]), const_eval(fa, r[2]["args"][2])
+                    if mn is None or mx is None:
+                        raise EngineError("SATURATE: the clamp bounds in %s are not constants the rule can "
+                                          "evaluate" % q)
+                    ok = (mn, mx) == (-32768, 32767)
+                    why = "the sum is clamped to [%s, %s] before the cast to i16: sums that fit in 16 " \
+                          "bits are changed (the cost of such a pair differs from the raw connector's)" % (mn, mx)
+                elif nm in ("try_from", "saturating_cast"):
+                    why = "the narrowing goes through %s" % nm
+            ctx.ob("SATURATE", "%s|i16-cast|%d" % (q.rsplit("::", 2)[-1] if "closure" in q else "create_matrix_connector", n),
+                   ok, fa.loc(b, i),
+                   "pre-summed costs are saturated to exactly the i16 range before they are stored"
+                   if ok else why)
+    ctx.floor("SATURATE", "narrowing casts to i16 in create_matrix_connector", n, 1)
+
+
 def run(ctx):
+    saturate(ctx)
     rawbuild(ctx)
     pruneset(ctx)
     rowrange(ctx)
